@@ -207,6 +207,40 @@ func (c *Ctx) StoreCommit(prop string, s *Slashing) {
 			}
 			good = l
 		}
+		// one write batch: what is flushed is what was filled (a fresh batch per chunk leaves the earlier chunks unwritten)
+		{
+			var batches []ssa.Instruction
+			for _, g := range WithClosures(fn) {
+				for _, ci := range Calls(g, func(ci ssa.CallInstruction) bool {
+					return IsCallTo(ci, "(*"+pkgBadger+".DB).NewWriteBatch") || IsCallTo(ci, "(*"+pkgBadger+".DB).NewWriteBatchAt")
+				}) {
+					batches = append(batches, ci.(ssa.Instruction))
+				}
+			}
+			inLoop := false
+			for _, bi := range batches {
+				blk := bi.Block()
+				seen := map[*ssa.BasicBlock]bool{}
+				st := append([]*ssa.BasicBlock{}, blk.Succs...)
+				for len(st) > 0 {
+					x := st[len(st)-1]
+					st = st[:len(st)-1]
+					if x == blk {
+						inLoop = true
+						break
+					}
+					if seen[x] {
+						continue
+					}
+					seen[x] = true
+					st = append(st, x.Succs...)
+				}
+			}
+			if len(batches) != 1 || inLoop {
+				good = nil
+				c.R.Fail(rule, Fn(fn)+":one-batch", c.P.FuncPos(fn), fmt.Sprintf("the batch store creates %d write batches (or creates one inside a loop): the batch that is flushed is not the one every entry was set in", len(batches)), "one NewWriteBatch, filled completely, flushed once", nil)
+			}
+		}
 		if good == nil {
 			c.R.Fail(rule, Fn(fn)+":set-all", c.P.FuncPos(fn), "no full-range loop over keys found in which every iteration does wb.Set(keys[i], values[i]) and stops on error", "for i := range keys { wb.Set(keys[i], values[i]) or return the error }", nil)
 		} else {
